@@ -15,6 +15,7 @@ func init() {
 	verifRegister("verifC16Tokenizers", verifC16Tokenizers)
 	verifRegister("verifC16Extensions", verifC16Extensions)
 	verifRegister("verifC16RoundTrip", verifC16RoundTrip)
+	verifRegister("verifC16FoundationRoundTrip", verifC16FoundationRoundTrip)
 	verifRegister("verifC16ParseAny", verifC16ParseAny)
 }
 
@@ -487,5 +488,41 @@ func verifC16ExtensionEquality() {
 	} else {
 		verifReach("not-deep-equal")
 	}
+	verifReach("done")
+}
+
+// (d') a candidate with an explicit foundation (what a parsed remote candidate
+// has, and what CandidateXConfig.Foundation sets): the foundation is any
+// string of ice-chars, and Marshal/UnmarshalCandidate keep it byte for byte —
+// with and without the optional "candidate:" prefix (seed C16-7 stripped
+// leading letters of the foundation that occur in the word "candidate").
+func verifIceChar(b byte) bool {
+	alpha := verifOr(verifAnd(b >= 'a', b <= 'z'), verifAnd(b >= 'A', b <= 'Z'))
+	return verifOr(verifOr(alpha, verifAnd(b >= '0', b <= '9')), verifOr(b == '+', b == '/'))
+}
+
+func verifC16FoundationRoundTrip() {
+	f := verifString(1 + verifChoice(2+verifTier()))
+	for i := 0; i < len(f); i++ {
+		verifAssume(verifIceChar(f[i]))
+	}
+	cand, err := NewCandidateHost(&CandidateHostConfig{Network: udp, Address: "10.0.0.1", Port: 4000, Component: 1, Priority: 7, Foundation: f})
+	if err != nil {
+		panic("verif: constructor: " + err.Error())
+	}
+	verifAssert(verifStrEq(cand.Foundation(), f), "explicit-foundation-is-reported")
+	text := cand.Marshal()
+	if verifChoice(2) == 1 {
+		verifReach("prefixed")
+		text = "candidate:" + text
+	}
+	p, err := UnmarshalCandidate(text)
+	verifAssert(err == nil, "marshalled-candidate-parses")
+	if err != nil {
+		return
+	}
+	verifAssert(verifStrEq(p.Foundation(), f), "foundation-round-trips-byte-for-byte")
+	verifAssert(verifStrEq(p.Marshal(), cand.Marshal()), "re-marshalled-text-identical")
+	verifAssert(cand.Equal(p), "parsed-candidate-Equal-to-original")
 	verifReach("done")
 }
